@@ -66,7 +66,7 @@ CLAIMS["C03"] = {
 }
 
 CLAIMS["C19"] = {
-    "technique": _T + " of the validation kernel (Delegates::new, Threshold::new, Version::new) through the public API",
+    "technique": _T + " of the validation kernel (RawDoc::verified via the cfg(kani) constructor RawDoc::verif_raw, Delegates::new, Threshold::new, Version::new)",
     "text": "The solver shows for every u32 that exactly versions 1..=IDENTITY_VERSION are accepted, and for every usize threshold and every equality pattern of up to 4 delegate entries over 3 keys that Delegates::new rejects only the empty list and keeps exactly the distinct delegates (first occurrence first), and that Threshold::new accepts exactly 1..=#delegates. This is the kernel every decoding path funnels through (TryFrom<RawDoc>); JSON decoding, canonical encoding and the repository-id hash are outside.",
     "note": "Trusted: Kani/CBMC. Partial claim: validation kernel only; keys concrete with enumerated equality patterns; the 255-delegate limit is not reached.",
 }
